@@ -34,6 +34,7 @@ RULE = ("every public operation (all iterator tools and aggregations via seeded 
 RULE += (' Also: catalogue scenarios with every protocol slot filled by a restart-sensitive non-coroutine awaitable, and a contextmanager-made context left by GeneratorExit whose clean-up suspends; future-like source flavour.')
 RULE += (" Also: close / scope exit during another task's pending read (scenarios of C07), judged on foreign suspensions.")
 RULE += (' Also: items that happen to be awaitable (payload) through every tool with synchronous arguments: never awaited.')
+RULE += (' Also: tools left after k items over class-based sources whose own aclose suspends, under a loop with and without async generator hooks: no clean-up awaitable is killed, none is pending when aclose() returns, nothing unraisable.')
 ASSUMPTIONS = ["a loop that checks identity of every token and reply is at least as strict as any real event loop",
                "C functions called from asyncstdlib code are visible to sys.monitoring CALL events"]
 EXHAUSTIVE = {"quick": False, "thorough": False}
